@@ -445,6 +445,12 @@ func c06Loopback(c *Ctx) {
 					c.Res.Inconcl("bind collision on a 'fixed' port: " + out.Err)
 					continue
 				}
+				if len(recvs) == 0 && wantProto == "tcp" && strings.Contains(out.Err, "i/o timeout") && strings.Contains(out.Err, "->"+wantEP.Addr) {
+					// the connection to the right endpoint over the right transport was not established within the timeout (a stalled host):
+					// nothing left, and nothing can be said about routing
+					c.Res.Inconcl("TCP connection to the expected endpoint not established within the timeout (host stalled?): " + out.Err)
+					continue
+				}
 				if len(recvs) != 1 {
 					c.Res.Violate(key+":count", fmt.Sprintf("%s (controller %s, protocol %q, bind %s): %d requests arrived at the farm, expected exactly one at %s %s: %v", op.Name, dv.state, dv.proto, cfg.Bind, len(recvs), wantProto, wantEP.Addr, desc), wv, caseNo)
 					continue
